@@ -1,7 +1,120 @@
-(* family 16: stub, to be filled *)
+(* family 16: USLP headers and transfer frames (C17) *)
 From Coq Require Import ZArith List Bool.
-From SP Require Import Base.Result Base.Bytes Run.Marshal.
+From SP Require Import Base.Result Base.Bytes Run.Marshal Model.UslpHeader Model.UslpFrame Spec.UslpSpec.
 Import ListNotations.
 Open Scope Z_scope.
 
-Definition run_uslp (op : Z) (a : args) : args := [[1; 97]].
+Definition z2b (z : Z) : bool := negb (z =? 0).
+Definition opt_z (has v : Z) : option Z := if z2b has then Some v else None.
+Definition of_opt_z (o : option Z) : list Z := match o with Some v => [1; v] | None => [0; 0] end.
+Definition ft_opt (z : Z) : option ftype :=
+  if z =? 0 then Some FtFixed else if z =? 1 then Some FtVariable else None.
+Definition ft_of (z : Z) : ftype := if z =? 0 then FtFixed else FtVariable.
+
+(* [scid; src_dest; vcid; map_id] *)
+Definition base_of (l : list Z) : hbase :=
+  {| scid := nth 0 l 0; src_dest := nth 1 l 0; vcid := nth 2 l 0; map_id := nth 3 l 0 |}.
+Definition base_fields (b : hbase) : list Z := [scid b; src_dest b; vcid b; map_id b].
+(* [scid; src_dest; vcid; map_id; frame_len; bypass; prot; ocf; vcf_len; has_count; count] *)
+Definition phdr_of (l : list Z) : phdr :=
+  {| pbase := base_of l; frame_len := nth 4 l 0; bypass := nth 5 l 0; prot := nth 6 l 0;
+     ocf_flag := nth 7 l 0; vcf_len := nth 8 l 0; vcf_count := opt_z (nth 9 l 0) (nth 10 l 0) |}.
+Definition phdr_fields (h : phdr) : list Z :=
+  base_fields (pbase h) ++ [frame_len h; bypass h; prot h; ocf_flag h; vcf_len h] ++ of_opt_z (vcf_count h).
+(* kind :: fields ; kind 0 = truncated, 1 = primary *)
+Definition fhdr_of (l : list Z) : fhdr :=
+  match l with
+  | 0 :: r => HTrunc (base_of r)
+  | _ :: r => HPrim (phdr_of r)
+  | [] => HTrunc (base_of [])
+  end.
+Definition fhdr_fields (h : fhdr) : list Z :=
+  match h with HTrunc b => 0 :: base_fields b | HPrim p => 1 :: phdr_fields p end.
+
+(* a1 = [rules; ident; has_fhp; fhp], a2 = tfdz *)
+Definition tfdf_of (s : list Z) (d : bytes) : res tfdf :=
+  tfdf_new (nth 0 s 0) (nth 1 s 0) d (opt_z (nth 2 s 0) (nth 3 s 0)).
+Definition tfdf_fields (t : tfdf) : list Z := [rules t; ident t] ++ of_opt_z (fhp t) ++ [tsize t].
+
+(* a[k..k+5] = header, tfdf scalars, tfdz, insert zone, OCF, FECF *)
+Definition frame_of (a : args) : res frame :=
+  do t <- tfdf_of (lst 1 a) (lst 2 a);
+  Ok {| hdr := fhdr_of (lst 0 a); ftfdf := t; izone := opt_bytes (lst 3 a);
+        ocf := opt_bytes (lst 4 a); fecf := opt_bytes (lst 5 a) |}.
+Definition frame_fields (f : frame) : args :=
+  [fhdr_fields (hdr f); tfdf_fields (ftfdf f); tfdz (ftfdf f); of_opt_bytes (izone f);
+   of_opt_bytes (ocf f); of_opt_bytes (fecf f); [frame_len_of f]].
+
+(* [ft; is_fixed; len; has_iz; has_fecf; iz_some; iz_len; fecf_some; fecf_len] *)
+Definition props_of (l : list Z) : res fprops :=
+  props_new (z2b (nth 1 l 0)) (nth 2 l 0) (z2b (nth 3 l 0)) (z2b (nth 4 l 0))
+            (opt_z (nth 5 l 0) (nth 6 l 0)) (opt_z (nth 7 l 0) (nth 8 l 0)).
+
+Definition res_list (r : res bytes) : list Z :=
+  match r with Ok b => 0 :: b | Err e => [1; err_code e] end.
+
+Definition op_of (l : list Z) : fop :=
+  match l with
+  | 0 :: d => OpSetTfdz d
+  | 1 :: _ => OpSetFrameLen
+  | 2 :: _ => OpPack
+  | _ => OpLen
+  end.
+Definition hdr_frame_len (f : frame) : Z :=
+  match hdr f with HPrim p => frame_len p | HTrunc _ => -1 end.
+Fixpoint run_history (f : frame) (tr : bool) (ft : option ftype) (ops : args) : args :=
+  match ops with
+  | [] => []
+  | o :: r =>
+      let f' := frame_apply f (op_of o) in
+      (match op_of o with
+       | OpPack => res_list (frame_pack f' tr ft)
+       | _ => [frame_len_of f'; hdr_frame_len f'; tfdf_len (ftfdf f')]
+       end) :: run_history f' tr ft r
+  end.
+
+Definition run_uslp (op : Z) (a : args) : args :=
+  match op with
+  | 1600 => ret (fun b => [b]) (phdr_pack (phdr_of (lst 0 a)))
+  | 1601 => ret (fun h => [phdr_fields h; [phdr_len h]]) (phdr_unpack (lst 0 a) (int 1 0 a))
+  | 1602 => ret (fun b => [b]) (thdr_pack (base_of (lst 0 a)))
+  | 1603 => ret (fun b => [base_fields b; [thdr_len b]]) (thdr_unpack (lst 0 a) (int 1 0 a))
+  | 1604 => ret (fun t => [[t]]) (determine_header_type (lst 0 a))
+  | 1605 => ret (fun b => [b]) (do h <- phdr_unpack (lst 0 a) USLP_VERSION_NUMBER; phdr_pack h)
+  | 1606 => [[0]; [phdr_len (phdr_of (lst 0 a))]]
+  | 1607 => ret (fun b => [b]) (do h <- thdr_unpack (lst 0 a) USLP_VERSION_NUMBER; thdr_pack h)
+  | 1610 => ret (fun t => [tfdf_fields t]) (tfdf_of (lst 0 a) (lst 1 a))
+  | 1611 => ret (fun b => [b])
+              (do t <- tfdf_of (lst 0 a) (lst 1 a);
+               tfdf_pack t (z2b (int 2 0 a)) (ft_opt (int 2 1 a)))
+  | 1612 => ret (fun t => [tfdf_fields t; tfdz t])
+              (tfdf_unpack (lst 0 a) (z2b (int 1 0 a)) (int 1 1 a) (ft_opt (int 1 2 a)))
+  | 1613 => [[0]; [b2z (should_have_fhp (int 0 0 a) (z2b (int 0 1 a)) (ft_opt (int 0 2 a)));
+                   b2z (verify_frame_type (int 0 0 a) FtFixed);
+                   b2z (verify_frame_type (int 0 0 a) FtVariable)]]
+  | 1620 => ret (fun f => [[frame_len_of f]]) (frame_of a)
+  | 1621 => ret (fun x => [fst x; [snd x]])
+              (do f <- frame_of a;
+               do b <- frame_pack f (z2b (int 6 0 a)) (ft_opt (int 6 1 a));
+               Ok (b, frame_len_of f))
+  | 1622 => ret (fun f => [fhdr_fields (hdr f); [frame_len_of f]])
+              (do f <- frame_of a; Ok (set_frame_len_in_header f))
+  | 1623 => ret (fun x => [fst x; fhdr_fields (hdr (snd x)); [frame_len_of (snd x)]])
+              (do f <- frame_of a;
+               let f' := set_frame_len_in_header f in
+               do b <- frame_pack f' (z2b (int 6 0 a)) (ft_opt (int 6 1 a));
+               Ok (b, f'))
+  | 1625 => ret frame_fields
+              (do p <- props_of (lst 1 a); frame_unpack (lst 0 a) (ft_of (int 1 0 a)) p)
+  | 1626 => ret (fun p => [[b2z (p_fixed p); p_len p; b2z (iz_present p); iz_size p;
+                            b2z (fecf_present p); fecf_size p]]) (props_of (lst 0 a))
+  | 1630 => ret (fun f => run_history f (z2b (int 6 0 a)) (ft_opt (int 6 1 a)) (skipn 7 a))
+              (frame_of a)
+  (* Spec side (independent oracle) *)
+  | 1650 => [[0]; phdr_layout (phdr_of (lst 0 a))]
+  | 1651 => [[0]; thdr_layout (base_of (lst 0 a))]
+  | 1652 => ret (fun f => [frame_layout (hdr_layout (hdr f)) f;
+                           [b2z (spec_has_pointer (rules (ftfdf f)) (z2b (int 6 0 a)))]])
+              (frame_of a)
+  | _ => [[1; 97]]
+  end.
